@@ -17,6 +17,15 @@ def handleMultisig (_D : Dev) : List String → Option String
     let v := inputVerify (← m.toNat?) (← n.toNat?) sg.length ok
     let s := s!"{if sg.isEmpty then "-" else ",".intercalate (sg.map toString)} valid={v}"
     pure (two s s)
+  | ["tx_verify", ins] => do
+    -- `Transaction.verify` over the per-input facts c:vout:sigsOk (c = typed coinbase)
+    let parse (t : String) : Option VIn :=
+      match t.splitOn ":" with
+      | [c, v, k] => do pure { coinbaseTyped := c == "1", vout := (← v.toNat?), sigsOk := k == "1" }
+      | _ => none
+    let l ← if ins = "-" then some [] else (ins.splitOn ",").mapM parse
+    let s := toString (txVerify l)
+    pure (two s s)
   | _ => none
 
 end Btc.Driver
